@@ -13,7 +13,9 @@ THEOREMS = ['cost_bound', 'cost_bound_sp', 'prim_ticks_bound', 'ticks_bound_scro
             # extension (a): allocation
             'alloc_version_same_state', 'alloc_counts_growth', 'alloc_dominates', 'alloc_bound', 'alloc_bound_state', 'alloc_bound_sp', 'alloc_bound_dollar',
             # extension (b): weighted iteration totals, rectangle clip
-            'ticks_bound', 'ticks_bound_sp', 'rect_clip', 'ticks_bound_dollar', 'ticks_bound_rqcra', 'dollar_arms_only', 'rqcra_arm_only']
+            'ticks_bound', 'ticks_bound_sp', 'rect_clip', 'ticks_bound_dollar', 'ticks_bound_rqcra', 'dollar_arms_only', 'rqcra_arm_only',
+            # extension (c): hex-macro repeat groups, macro replay
+            'hexmacro_bound', 'hexmacro_bound_cond', 'hexmacro_linear', 'macro_replay_bound', 'macro_invokes_half', 'macro_table_ok']
 SWEEP_LEMMAS = []
 TRUSTED = ['Coq 8.16.1 kernel + vm_compute (model evaluation in stage C); no axioms (Print Assumptions: closed)',
            'Model/Cost.v re-states the loops of Model/TermCore.v / AnsiTok.v with counters (tick_version_same_state: same state); the arms changed by the '
@@ -606,6 +608,41 @@ def state_corr_cases(ctx):
         add(inter, final, t, rng.random() < 0.5)
     return meta
 
+def macro_nest_cases(ctx):
+    """(definitions, top id, depth): macro 1 is text, macro k+1 replays macro k several times (hex definitions, printable filler)"""
+    rng = ctx.rng
+    out = []
+    ST = E + b'\\'
+    def hexdef(i, body):
+        return E + b'P%d;0;1!z' % i + body.hex().upper().encode() + ST
+    for _ in range(ctx.n(24, 120)):
+        depth = rng.randint(1, 4)
+        defs = hexdef(1, bytes(rng.choice(b'ABCDEFGH') for _ in range(rng.randint(0, 12))))
+        for k in range(2, depth + 1):
+            body = b''
+            for _ in range(rng.randint(0, 3)):
+                body += bytes(rng.choice(b'abcxyz') for _ in range(rng.randint(0, 3))) + E + b'[%d*z' % rng.randint(1, k - 1)
+            body += bytes(rng.choice(b'klm') for _ in range(rng.randint(0, 2)))
+            defs += hexdef(k, body)
+        # the depth actually reached by the top macro (a body may invoke shallower macros only)
+        out.append((defs, depth, None))
+    res = []
+    for defs, top, _ in out:
+        res.append((defs, top, macro_depth(defs, top)))
+    return res
+
+def macro_depth(defs, top):
+    """nesting depth of macro `top` in hex definitions produced by macro_nest_cases (1 = no invocation inside)"""
+    import re
+    bodies = {}
+    for mm in re.finditer(rb'\x1bP(\d+);0;1!z([0-9A-F]*)\x1b\\', defs):
+        bodies[int(mm.group(1))] = bytes.fromhex(mm.group(2).decode())
+    def d(i):
+        if i not in bodies: return 0
+        subs = [int(x) for x in re.findall(rb'\x1b\[(\d+)\*z', bodies[i])]
+        return 1 + max([d(j) for j in subs] or [0])
+    return d(top)
+
 def state_corr(ctx, meta, impl, model):
     """-> disagreements, number of non-trivial cases"""
     dis = []; nontriv = 0
@@ -672,14 +709,23 @@ def correspondence(ctx):
     extra_exprs = ['run_hex %s' % zl(s) for s in hexs] + ['run_glyphs %d %d' % g for g in glyphs]
     calib = ['calib 20000'] * 3
     hex_cases = ['seq 0 80 25 - %s' % hx(E + b'P1;0;1!z' + s + E + b'\\' + E + b'[1*z') for s in hexs]
+    # extension (c): the macro is defined in the (unmeasured) prefix after a form feed, the measured part is the invocation: characters printed (read off the caret) = macro length
+    hex_cases2 = ['seq 0 80 25 %s %s' % (hx(b'\x0c' + E + b'P1;0;1!z' + s + E + b'\\'), hx(E + b'[1*z')) for s in hexs]
+    nest = macro_nest_cases(ctx)
+    nest_cases = ['seq 0 80 25 %s %s' % (hx(b'\x0c' + defs), hx(E + b'[%d*z' % top)) for defs, top, depth in nest]
+    nest_exprs = ['run_macro_seq %d %s %d' % (depth, zl(defs), top) for defs, top, depth in nest] + \
+                 ['run_macro_seq %d %s %d' % (depth - 1, zl(defs), top) for defs, top, depth in nest]
     glyph_cases = ['font %s' % hx(b'\x36\x04\x00' + bytes([hh]) + b'\x00' * nn) for hh, nn in glyphs]
     smeta = state_corr_cases(ctx)
     st_cases = [st_case(0, w, h, len(a), a + b) for _, w, h, a, b, _, _ in smeta]
     st_exprs = ['run_state %d %d %s %s' % (w, h, zl(a), zl(b)) for _, w, h, a, b, _, _ in smeta]
-    impl = ctx.impl(cases + hex_cases + glyph_cases + calib + st_cases, per_case_timeout=5)
-    model = ctx.model(MODEL_IMPORTS, exprs + exprs_old + extra_exprs + st_exprs, timeout=900)
+    ext_cases = hex_cases2 + nest_cases
+    impl = ctx.impl(cases + hex_cases + glyph_cases + calib + ext_cases + st_cases, per_case_timeout=5)
+    model = ctx.model(MODEL_IMPORTS, exprs + exprs_old + extra_exprs + nest_exprs + st_exprs, timeout=900)
     impl_st = impl[len(impl) - len(st_cases):]; impl = impl[:len(impl) - len(st_cases)]
+    impl_ext = impl[len(impl) - len(ext_cases):]; impl = impl[:len(impl) - len(ext_cases)]
     model_st = model[len(model) - len(st_exprs):]
+    model_nest = model[len(model) - len(st_exprs) - len(nest_exprs):len(model) - len(st_exprs)]
     tref = min([r[1][0] for r in impl[-3:] if r and r[0] == 'ok'] or [20000])
     per_tick = max(0.05, tref / 20000.0)          # microseconds per printed character in this run
     dis = []; nontriv = set(); ratios = []; outliers = 0; dist = {}; bound_margin = []
@@ -739,6 +785,35 @@ def correspondence(ctx):
             dis.append({'case': hex_cases[j], 'impl': r[1], 'model': m, 'what': 'hex macro accepted/rejected differently'})
         if m[0] == 1 and m[1] < m[2]:
             dis.append({'case': hex_cases[j], 'impl': r[1], 'model': m, 'what': 'iteration counter below the macro length'})
+    # extension (c): hexmacro_bound instance, printed characters = macro length; macro replay: printed <= macro_chars <= B * geom c depth
+    ext_n = 0
+    for j, s_ in enumerate(hexs):
+        m = model[base2 + j]; r = impl_ext[j]
+        if m is None or len(m) < 6: continue
+        ext_n += 1
+        if m[1] > m[5] * (1 + m[4]) or m[2] > m[5] * (1 + m[4]):
+            dis.append({'case': hex_cases2[j], 'impl': None, 'model': m, 'what': 'hex macro counter / length exceed zlen s * (1 + hex_reps): hexmacro_bound does not hold for this model value'}); continue
+        if m[0] == 1:
+            if r is None or r[0] != 'ok':
+                dis.append({'case': hex_cases2[j], 'impl': r, 'model': m, 'what': 'invocation of an accepted hex macro did not return'}); continue
+            printed = r[1][8] * 80 + r[1][7]        # caret after a form feed = characters printed (80 columns, auto-wrap, no margins)
+            if printed != m[2]:
+                dis.append({'case': hex_cases2[j], 'impl': printed, 'model': m[2], 'what': 'characters printed by the invocation differ from the length of the macro the model expands'})
+            elif printed > m[1]:
+                dis.append({'case': hex_cases2[j], 'impl': printed, 'model': m[1], 'what': 'characters printed exceed the iteration counter of parse_hex_macro_sequence'})
+    for j, (defs, top, depth) in enumerate(nest):
+        m = model_nest[j]; m0 = model_nest[len(nest) + j]; r = impl_ext[len(hexs) + j]
+        c = nest_cases[j]; ext_n += 1
+        if m is None or m0 is None or len(m) < 4:
+            dis.append({'case': c, 'impl': r, 'model': m, 'what': 'macro replay model evaluation failed'}); continue
+        if m[0] < 0 or m0[0] != -2:
+            dis.append({'case': c, 'impl': None, 'model': [m, m0], 'what': 'macro nesting depth: the model replays within fuel %d and must not within %d' % (depth, depth - 1)}); continue
+        if r is None or r[0] != 'ok':
+            dis.append({'case': c, 'impl': r, 'model': m, 'what': 'nested macro invocation did not return; the model replays %d characters' % m[0]}); continue
+        printed = r[1][8] * 80 + r[1][7]
+        if printed > m[0] or m[0] > m[3]:
+            dis.append({'case': c, 'impl': printed, 'model': m, 'what': 'characters printed > macro_chars, or macro_chars > B * geom c fuel (macro_replay_bound)'}); continue
+        if printed > 0: nontriv.add(c)
     for j, g in enumerate(glyphs):
         m = model[base2 + len(hexs) + j]; r = impl[len(cases) + len(hexs) + j]
         if m is None or r is None or r[0] != 'ok':
@@ -750,7 +825,8 @@ def correspondence(ctx):
     dis = sdis + dis
     dist['state-comparison inputs (prepared state + entry + probe)'] = len(smeta)
     ratios.sort()
-    return {'cases': len(cases) + len(old) + len(hexs) + len(glyphs) + len(smeta), 'disagreements': dis, 'distinct_nontrivial': len(nontriv) + snontriv,
+    dist['extension: hex-macro length / macro replay cases'] = ext_n
+    return {'cases': len(cases) + len(old) + len(hexs) + len(glyphs) + len(smeta) + ext_n, 'disagreements': dis, 'distinct_nontrivial': len(nontriv) + snontriv,
             'distribution': {'per_control_function': dist, 'calibration_us_per_tick': round(per_tick, 4),
                              'time_over_model_ratio_median': round(ratios[len(ratios) // 2], 3) if ratios else None,
                              'time_over_model_ratio_max': round(ratios[-1], 3) if ratios else None,
